@@ -18,7 +18,7 @@ import numpy as np
 from .. import families, tv, tvspec, decide, runner, findings, tvdelay
 from .. import expr as X
 from ..expr import V, C
-from ..spec import OpSpec, EdgeTplSpec, FP, build_python
+from ..spec import OpSpec, EdgeTplSpec, FP, ModelSpec, build_python
 from ..popmodel import Pop, Conn, PopModel, explicit_spec, build_population, unit
 from ..report import Report
 from .c01 import FUNCS
@@ -55,8 +55,12 @@ def make_model(kind, seed):
         dyn = OpSpec('dyn', [('s', 'de', X.div(X.sub(X.mul(V('pre'), V('post')), V('s')), V('te')))],
                      {'s': ('state', F(0)), 'pre': ('input', F(0)), 'post': ('input', F(0)), 'te': ('const', fp())},
                      output='s')
-    ops = {'li': li, 'o1': o1, 'cpl': cpl, 'cp1': cpl1, 'dyn': dyn}
-    etp = {'ce': EdgeTplSpec('ce', ['cpl']), 'c1': EdgeTplSpec('c1', ['cp1']), 'de': EdgeTplSpec('de', ['dyn'])}
+    # coupling operator with an intermediate variable (two equations; the second one multiplies the first)
+    cp2 = OpSpec('cp2', [('q', 'alg', X.add(V('pre'), V('gn'))), ('z', 'alg', X.mul(V('q'), C(2)))],
+                 {'z': ('alg', F(0)), 'q': ('alg', F(0)), 'pre': ('input', F(0)), 'gn': ('const', fp())}, output='z')
+    ops = {'li': li, 'o1': o1, 'cpl': cpl, 'cp1': cpl1, 'dyn': dyn, 'cp2': cp2}
+    etp = {'ce': EdgeTplSpec('ce', ['cpl']), 'c1': EdgeTplSpec('c1', ['cp1']), 'de': EdgeTplSpec('de', ['dyn']),
+           'c2': EdgeTplSpec('c2', ['cp2'])}
     if kind in ('coupling2', 'coupling3'):
         # two coupling operators with the SAME equations and variable definitions, different constants (and names)
         for nm in ('cka', 'ckb'):
@@ -69,7 +73,7 @@ def make_model(kind, seed):
                                  {'z': ('alg', F(0)), 'pre': ('input', F(0)), 'gn': ('const', fp())}, output='z')
             etp['e' + nm] = EdgeTplSpec('e' + nm, [nm])
     # coupling/delay/spread kinds mostly with >= 2 units (size-1 populations hit the recorded n=1 finding)
-    lo = 1 if (kind in ('matrix', 'scalar') or (seed % 5 == 4 and kind not in ('delay2', 'spread2', 'dyncoupling', 'coupling2', 'coupling3', 'coupling-self', 'same-source', 'delay+spread', 'spread+delay'))) else 2
+    lo = 1 if (kind in ('matrix', 'scalar') or (seed % 5 == 4 and kind not in ('delay2', 'spread2', 'dyncoupling', 'coupling2', 'coupling3', 'coupling-self', 'coupling-2eq', 'same-source', 'spread-wide', 'spread-dde', 'delay+spread', 'spread+delay'))) else 2
     na = rnd.randint(lo, 3)
     nb = rnd.randint(lo, 3)
     if kind == 'xcoupling' and seed % 4 < 2:
@@ -120,6 +124,9 @@ def make_model(kind, seed):
             conns.append(Conn('b/o1/x', 'b/o1/w', Wm(nb, nb), edge='eckb', var_map={'pre': 'source'}))
         else:
             conns.append(Conn('b/o1/x', 'a/li/u', Wm(na, nb), edge='eckb', var_map={'pre': 'source'}))
+    elif kind == 'coupling-2eq':
+        conns.append(Conn('a/li/x', 'b/o1/u', Wm(nb, na), edge='c2', var_map={'pre': 'source'}))
+        conns.append(Conn('b/o1/x', 'a/li/u', Wm(na, nb)))
     elif kind == 'coupling-self':
         # a population coupled onto itself (the coupling function reads the target-side variable) next to a second coupled
         # input of the same target variable from the other population
@@ -188,8 +195,12 @@ def make_model(kind, seed):
         c_s = Conn('a/li/x', 'a/li/u' if seed % 2 else 'b/o1/w', Wm(na if seed % 2 else nb, na), delay=F(1), spread=F(2, 3))
         conns += [c_d, c_s] if kind == 'delay+spread' else [c_s, c_d]
         conns.append(Conn('b/o1/x', 'b/o1/w' if seed % 2 else 'a/li/u', Wm(nb if seed % 2 else na, nb)))
-    elif kind == 'spread':
+    elif kind in ('spread', 'spread-wide', 'spread-dde'):
         d, s = rnd.choice([(F(1, 2), F(1, 4)), (F(1), F(2, 3)), (F(1), F(1, 2)), (F(1, 2), F(1, 2))])
+        if kind == 'spread-wide':
+            d, s = [(F(1, 2), F(1)), (F(1, 2), F(3, 4))][seed % 2]     # (d/s)^2 rounds to 0: no stage at all
+        elif kind == 'spread-dde':
+            d, s = [(F(1), F(1, 2)), (F(1), F(2, 3))][seed % 2]        # order 4 > dde_approx=3; order 2 < 3 -> 3
         conns.append(Conn('a/li/x', 'b/o1/u', Wm(nb, na), delay=d, spread=s))
         conns.append(Conn('b/o1/x', 'a/li/u', Wm(na, nb)))
     return PopModel(ops, pops, conns, etp, note=f"{kind}: |a|={na}, |b|={nb}, coupling constant={with_const}")
@@ -215,9 +226,40 @@ def job_fn(job):
             spec = explicit_spec(pm2)
             out['exp_spec'] = spec
             ckw = dict(node_values={'a/li/tau': np.array([float(v) for v in new_tau]), 'b/o1/g': float(new_g)})
+        if job.get('update_var'):
+            # the same values through CircuitTemplate.update_var on the population variables
+            import copy
+            fp = FP(400)
+            pm2 = copy.deepcopy(pm)
+            new_tau = [fp() for _ in range(pm.pops['a'].n)]
+            new_g = fp()
+            pm2.pops['a'].params['li/tau'] = new_tau
+            pm2.pops['b'].params['o1/g'] = new_g
+            spec = explicit_spec(pm2)
+            out['exp_spec'] = spec
+            ct.update_var(node_vars={'a/li/tau': np.array([float(v) for v in new_tau]), 'b/o1/g': float(new_g)})
+        if job.get('derive'):
+            # a template derived without in_place (as run() derives one internally to attach an extrinsic input) is still the
+            # circuit of populations
+            ct = ct.update_template(name='popmodel_derived')
+        if job.get('extra_edge'):
+            # two ordinary nodes and an ordinary edge next to the populations (both forms get them)
+            from pyrates import CircuitTemplate
+            from ..spec import NodeSpec, EdgeSpec
+            fpx = FP(500)
+            xs = CircuitTemplate('x', nodes={}, edges=[])
+            spec.nodes['zx0'] = NodeSpec(['li'], {('li', 'x'): fpx(), ('li', 'tau'): fpx()})
+            spec.nodes['zx1'] = NodeSpec(['li'], {('li', 'x'): fpx(), ('li', 'tau'): fpx()})
+            spec.edges.append(EdgeSpec('zx0/li/x', 'zx1/li/u', fpx()))
+            extra = build_python(ModelSpec('extra', {'li': spec.ops['li']}, {k: spec.nodes[k] for k in ('zx0', 'zx1')},
+                                           [spec.edges[-1]]))
+            ct = CircuitTemplate('popmodel', nodes=dict(extra.nodes), edges=list(extra.edges),
+                                 populations=dict(ct.populations), connections=list(ct.connections))
     else:
         ct = build_python(spec)
         vec = job['vectorize']
+    if job['kind'] == 'spread-dde':
+        ckw['dde_approx'] = 3
     tally = decide.Tally()
     try:
         c = tv.compile_template(ct, vectorize=vec, step_size=float(DT), solver='euler', **ckw)
@@ -226,8 +268,11 @@ def job_fn(job):
     plugin = None
     if job['kind'] in ('delay', 'delay2'):
         plugin = tvdelay.RingBufferPlugin(DT)
-    elif job['kind'] in ('spread', 'spread2'):
+    elif job['kind'] in ('spread', 'spread2', 'spread-wide'):
         plugin = tvdelay.ChainPlugin()
+    elif job['kind'] == 'spread-dde':
+        # both a spread and dde_approx: the order of scalar edges, round((d/s)^2) but at least dde_approx
+        plugin = tvdelay.ChainPlugin(order_of=lambda e: max(round((F(e.delay) / F(e.spread)) ** 2), 3))
     elif job['kind'] in ('delay+spread', 'spread+delay'):
         plugin = tvdelay.Composite(tvdelay.RingBufferPlugin(DT), tvdelay.ChainPlugin())
     elif job['kind'] == 'dyncoupling' or (job['kind'] in ('coupling2', 'coupling3') and job['seed'] % 2):
@@ -310,13 +355,13 @@ def run(tier='quick', seed=0, only=None, verbose=False):
         assumptions=['reals for floats', 'dynamic coupling edges: pair states with the same differential equation and the same initial value are the same function of time and share one symbol (uniqueness of ODE solutions)',
                      'zero matrix entries mean no edge'])
     jobs = []
-    kinds = ['matrix', 'scalar', 'coupling', 'xcoupling', 'dyncoupling', 'coupling2', 'coupling3', 'coupling-self', 'same-source', 'delay+spread', 'spread+delay', 'delay', 'spread', 'delay2', 'spread2']
+    kinds = ['matrix', 'scalar', 'coupling', 'xcoupling', 'dyncoupling', 'coupling2', 'coupling3', 'coupling-self', 'coupling-2eq', 'same-source', 'spread-wide', 'spread-dde', 'delay+spread', 'spread+delay', 'delay', 'spread', 'delay2', 'spread2']
     n = 4 if tier == 'quick' else 30
     for kind in kinds:
         for i in range(n):
             jobs.append(dict(key=f"pop:{kind}:{seed}:{i}|population", kind=kind, seed=seed * 100 + i, build='population',
                              vectorize=True, spec=None))
-            if i < (2 if tier == 'quick' else 10) and kind not in ('coupling', 'xcoupling', 'dyncoupling', 'coupling2', 'coupling3', 'coupling-self', 'same-source'):
+            if i < (2 if tier == 'quick' else 10) and kind not in ('coupling', 'xcoupling', 'dyncoupling', 'coupling2', 'coupling3', 'coupling-self', 'coupling-2eq', 'same-source'):
                 for vec in (True, False):
                     jobs.append(dict(key=f"pop:{kind}:{seed}:{i}|explicit|vec={vec}", kind=kind, seed=seed * 100 + i,
                                      build='explicit', vectorize=vec, spec=None))
@@ -324,6 +369,15 @@ def run(tier='quick', seed=0, only=None, verbose=False):
         for i in range(2 if tier == 'quick' else 8):
             jobs.append(dict(key=f"pop:{kind}:{seed}:{i}|population|node_values", kind=kind, seed=seed * 100 + i,
                              build='population', vectorize=True, spec=None, node_values=True))
+    for kind in ('matrix', 'scalar'):
+        for i in range(2 if tier == 'quick' else 8):
+            jobs.append(dict(key=f"pop:{kind}:{seed}:{i}|population|update_var", kind=kind, seed=seed * 100 + i,
+                             build='population', vectorize=True, spec=None, update_var=True))
+            jobs.append(dict(key=f"pop:{kind}:{seed}:{i}|population|derived-template", kind=kind, seed=seed * 100 + i,
+                             build='population', vectorize=True, spec=None, derive=True))
+            jobs.append(dict(key=f"pop:{kind}:{seed}:{i}|population|node_values+ordinary-edge", kind=kind,
+                             seed=seed * 100 + i, build='population', vectorize=True, spec=None, node_values=True,
+                             extra_edge=True))
     if only:
         jobs = [j for j in jobs if only in j['key']]
     for j in jobs:
